@@ -89,6 +89,13 @@ def run_lp(case):
     obj = m.abssum(E, coeffs=coeffs) + sum(p * b for p, b in zip(pen, B))
     for t, w, pn, p in prods:
         obj += w * p
+    cont = None
+    if case.get("cont"):
+        # a continuous variable bounded to [0, 1] and pinned to 0.8 (not in the objective): it is not a binary, must be read back as a
+        # real number and must never appear among the names of a yielded solution
+        cont = m.addVar(lb=0, ub=1, name="F_cont")
+        m.addConstr(cont >= 0.8, name="PIN")
+        m.addConstr(cont <= 0.8, name="PIN")
     m.setObjective(obj)
     # --- enumeration
     feas = {}
@@ -120,6 +127,12 @@ def run_lp(case):
         for b in B[:2]:
             if not isinstance(m.getValue(b), bool):
                 viol.append(V("getValue-not-bool-for-binary", got=str(type(m.getValue(b)))))
+        if cont is not None:
+            cv = m.getValue(cont)
+            if isinstance(cv, bool) or abs(float(cv) - 0.8) > 1e-6:
+                viol.append(V("continuous-variable-read-back-wrong", got=repr(cv)))
+            if m.is_binary(cont):
+                viol.append(V("continuous-variable-classified-as-binary"))
     if not feas:
         if sols:
             viol.append(V("solutions-for-infeasible-model", n=len(sols)))
@@ -268,8 +281,46 @@ def run_audit_other(case):
     return viol, stats
 
 
+def run_limit(case):
+    """A model too large to close within a tiny time limit handed over through the `init` hook: the optimum (0, planted) is known by
+    construction; whatever the solver manages, the first yielded solution must be a global optimum - an unfinished search yields nothing."""
+    import random as _r
+    from aldy import lpinterface
+
+    rng = _r.Random(case["seed"])
+    nb, nr = case["nb"], case["rows"]
+    m = lpinterface.model("lim", "cbc")
+    B = [m.addVar(vtype="B", name=f"A_{i}") for i in range(nb)]
+    xs = [rng.randrange(2) for _ in range(nb)]
+    E = []
+    for j in range(nr):
+        co = [rng.choice([0, 1, 1, 2, 3]) for _ in range(nb)]
+        e = m.addVar(lb=-m.INF, ub=m.INF, name=f"E_{j}")
+        ex = sum(c * b for c, b in zip(co, B)) + e
+        rhs = float(sum(c * x for c, x in zip(co, xs)))
+        m.addConstr(ex <= rhs, name="C")
+        m.addConstr(ex >= rhs, name="C")
+        E.append(e)
+    m.setObjective(m.abssum(E))
+    ms = case["ms"]
+    viol = []
+    first = None
+    for st_, o, nms in m.solutions(0, init=lambda mdl: mdl.SetTimeLimit(ms)):
+        first = (st_, o)
+        break
+    labels = ["time-limit", "limit:yielded" if first else "limit:nothing-yielded"]
+    if first is not None and first[1] > 1e-6:
+        if first[0] != "optimal":
+            viol.append(V("first-yielded-solution-not-optimal-under-a-time-limit", status=first[0], objective=first[1], optimum=0.0, ms=ms))
+        else:
+            labels.append("backend-claims-optimal-above-the-planted-optimum")  # the backend's own fault (cf. KF-CBC), not the interface's
+    return Result(viol, labels, True)
+
+
 def run_case(case):
     kind = case["kind"]
+    if kind == "limit":
+        return run_limit(case)
     if kind == "audit2":
         viol, stats = run_audit_other(case)
         return Result(viol, [f"audit2:{case['module']}"], stats["models>=20vars"] > 0, info=dict(stats))
@@ -311,6 +362,7 @@ def strategy(tier):
         "pen": st.lists(st.integers(0, 100), min_size=nb, max_size=nb),
         "w": st.lists(st.sampled_from([1, 1, 2, 0, 0.5, 0.2]), min_size=5, max_size=5),
         "planted": st.none() | st.none() | st.integers(0, 2 ** nb - 1),
+        "cont": st.booleans(),
     }))
     audit = st.fixed_dictionaries({"kind": st.just("audit"), "stage": st.sampled_from(["cn", "major", "minor"]),
                                    "gap": st.sampled_from([0, 0.1, 0.3]), "seed": st.integers(0, 10 ** 6)})
@@ -321,7 +373,10 @@ def strategy(tier):
 
     audit2 = st.one_of(other("C02", C02, lambda c: c["kind"] == "opt"), other("C03", C03, lambda c: c["kind"] == "model" and c["gene"] != "cyp2d6"),
                        other("C04", C04, lambda c: c["kind"] == "opt"))
-    return st.sampled_from(["lp"] * 12 + ["audit"] * 2 + ["audit2"] * 2).flatmap(lambda k: {"lp": lp, "audit": audit, "audit2": audit2}[k])
+    limit = st.fixed_dictionaries({"kind": st.just("limit"), "nb": st.sampled_from([40, 60, 80]), "rows": st.integers(5, 8),
+                                   "ms": st.sampled_from([20, 60, 150]), "seed": st.integers(0, 10 ** 6)})
+    return st.sampled_from(["lp"] * 24 + ["audit"] * 4 + ["audit2"] * 4 + ["limit"]).flatmap(
+        lambda k: {"lp": lp, "audit": audit, "audit2": audit2, "limit": limit}[k])
 
 
 def budget(tier):
